@@ -102,6 +102,11 @@ pub fn crc_structured(lead: &[u8], nbits: u32, ap: u32) -> Vec<Frame> {
             g.seal(ap);
             out.push(g);
         }
+        // zero fill with exactly one bit set behind the prefix (every position), parity field left as it is
+        let tail_bits = ((nbytes - p) * 8) as u32;
+        for b in 0..tail_bits {
+            out.push(Frame { v: (prefix << tail_bits) | (1u128 << b), nbits });
+        }
     }
     out
 }
@@ -328,6 +333,23 @@ pub fn mb_bds20(chars: [u32; 8]) -> u64 {
 }
 
 /// BDS 3,0: 0x30, ARA(14) bits 9-22, RAC(4) 23-26, RAT 27, MTE 28, TTI(2) 29-30, TID(26) 31-56
+/// BDS 4,5 meteorological hazard report with every status bit set and every value non-zero (turbulence, wind
+/// shear, microburst, icing, wake vortex = `lvl`; static air temperature `temp_q` x 0.25 C; average static
+/// pressure `pres` hPa; radio height `rh16` x 16 ft), reserved bits 52-56 zero
+pub fn mb_bds45(lvl: u32, temp_q: u32, pres: u32, rh16: u32) -> u64 {
+    let mut m = Me::new();
+    for k in 0..5u32 {
+        m = m.set(1 + 3 * k, 1, 1).set(2 + 3 * k, 2, lvl as u64);
+    }
+    m.set(16, 1, 1).set(17, 1, 0).set(18, 9, temp_q as u64).set(27, 1, 1).set(28, 11, pres as u64).set(39, 1, 1).set(40, 12, rh16 as u64).0
+}
+
+/// BDS 4,4 meteorological routine report: FOM/source 1, wind (status, speed kt, direction x 180/256), static air
+/// temperature (sign, x 0.25 C), pressure (status, hPa), turbulence (status, level), humidity (status, x 100/64 %)
+pub fn mb_bds44(wind_kt: u32, wind_dir: u32, temp_q: u32, pres: u32, turb: u32, hum: u32) -> u64 {
+    Me::new().set(1, 4, 1).set(5, 1, 1).set(6, 9, wind_kt as u64).set(15, 9, wind_dir as u64).set(24, 1, 0).set(25, 10, temp_q as u64).set(35, 1, 1).set(36, 11, pres as u64).set(47, 1, 1).set(48, 2, turb as u64).set(50, 1, 1).set(51, 6, hum as u64).0
+}
+
 pub fn mb_bds30(ara: u32, rac: u32, rat: u32, mte: u32, tti: u32, tid: u32) -> u64 {
     Me::new()
         .set(1, 8, 0x30)
